@@ -253,6 +253,9 @@ def run_case(ctx, kind_, idx):
                     ctx.violation("original_changed", cid, {"after": "the caller edited the table whose read-only views he had handed in",
                                                             "program": [how]})
                     return
+                # the working series aliases the caller's table by design (the constructor copies only the original), so
+                # the caller has just edited it under the object's feet: the program does not go on with THIS object
+                wv, how = Weaver(before_edit[0].copy(), before_edit[1].copy()), how + ", then a fresh Weaver on the data as handed in"
                 x, y = before_edit[0].copy(), before_edit[1].copy()
             else:
                 wv, how = construct(rng, x, y, guard)
